@@ -59,7 +59,8 @@ func expJ(e *traceql_parser.AttrSelectorExp) interface{} {
 	}
 	r := J{"head": nil, "chead": expJ(e.ComplexHead), "andor": e.AndOr, "tail": expJ(e.Tail)}
 	if e.Head != nil {
-		r["head"] = J{"label": e.Head.Label, "op": e.Head.Op, "val": valJ(e.Head.Val)}
+		// key: the REAL AttrSelector.String() -- the identity under which analyzeCond de-duplicates the terms of a selector
+		r["head"] = J{"label": e.Head.Label, "op": e.Head.Op, "val": valJ(e.Head.Val), "key": hx.Hex(e.Head.String())}
 	}
 	return r
 }
@@ -450,11 +451,164 @@ func wide(r *rand.Rand) string {
 	return "{" + q + "}"
 }
 
+// ---------------------------------------------------------------- confusable terms (round 6)
+// Two (or three) terms of ONE selector with the same label and the same operator whose literals are different but easy to
+// conflate: analyzeCond de-duplicates terms under AttrSelector.String(), so anything that printing might identify (a cut
+// after N bytes, trimming, case folding, unquoting, unicode normalisation, number normalisation) silently replaces the
+// second condition by the first.  A deterministic grid: every kind x every operator family, the rest drawn from r.
+var longBase = "/api/v2/tenants/0123456789abcdef/projects/fedcba9876543210/regions/eu-central-1/clusters/prod-blue-7/namespaces/billing_core/services/invoice-renderer/endpoints/render_pdf/versions/2024-11-05/shards/000042/replicas/r3/paths/home/qryn/data/traces/"
+
+func longPrefix(n int) string {
+	s := longBase
+	for len(s) < n {
+		s += longBase
+	}
+	return s[:n]
+}
+
+// prefix lengths around the sizes at which a printer might cut (the quote of the token counts as one byte: 47/48/49 ...)
+var cutLens = []int{30, 46, 47, 48, 49, 62, 63, 64, 65, 100, 127, 128, 129, 254, 255, 256, 257, 300, 520}
+
+type confKind struct {
+	name string
+	vals func(r *rand.Rand, g int) []string // the literal TOKENS (quoted), at least two
+	num  bool                               // numeric / duration literals (numeric operators)
+}
+
+func dq(s string) string { return strconv.Quote(s) }
+
+var confKinds = []confKind{
+	{"long-common-prefix", func(r *rand.Rand, g int) []string {
+		p := longPrefix(cutLens[g%len(cutLens)])
+		return []string{dq(p + "orders"), dq(p + "invoices"), dq(p + "health")}
+	}, false},
+	{"long-last-byte", func(r *rand.Rand, g int) []string {
+		p := longPrefix(cutLens[g%len(cutLens)])
+		return []string{dq(p + "A"), dq(p + "B")}
+	}, false},
+	{"long-ticked", func(r *rand.Rand, g int) []string {
+		p := longPrefix(cutLens[g%len(cutLens)])
+		return []string{"`" + p + "x1`", "`" + p + "x2`", dq(p + "x2")}
+	}, false},
+	{"long-proper-prefix", func(r *rand.Rand, g int) []string { // one literal is a prefix of the other
+		p := longPrefix(cutLens[g%len(cutLens)])
+		return []string{dq(p), dq(p + "z"), dq(p + "zz")}
+	}, false},
+	{"trailing-space", func(r *rand.Rand, g int) []string { return []string{dq("v"), dq("v "), dq(" v"), dq("v  ")} }, false},
+	{"case", func(r *rand.Rand, g int) []string { return []string{dq("GET"), dq("get"), dq("Get")} }, false},
+	{"empty-blank", func(r *rand.Rand, g int) []string { return []string{dq(""), dq(" "), "``"} }, false},
+	{"unicode-normal-forms", func(r *rand.Rand, g int) []string { // NFC / NFD / ASCII fold
+		return []string{"\"caf\u00e9\"", "\"cafe\u0301\"", "\"cafe\"", "\"caf\u00c9\"", `"caf\u00e9"`}
+	}, false},
+	{"escapes", func(r *rand.Rand, g int) []string { // same or different value behind different spellings
+		return []string{`"a\tb"`, `"a b"`, `"a\\tb"`, `"atb"`, `"a\u0009b"`}
+	}, false},
+	{"quotes", func(r *rand.Rand, g int) []string { return []string{`"q\"t"`, "`q\"t`", `"qt"`, `"q't"`} }, false},
+	{"quote-kinds-same-value", func(r *rand.Rand, g int) []string { return []string{`"w"`, "`w`", `"W"`} }, false},
+	{"percent-underscore", func(r *rand.Rand, g int) []string { return []string{dq("a_b"), dq("a%b"), dq("aXb"), dq("a-b")} }, false},
+	{"numbers-same-value", func(r *rand.Rand, g int) []string { return []string{"1", "1.0", "1.00", "01"} }, true},
+	{"numbers-near", func(r *rand.Rand, g int) []string { return []string{"0.5", "0.50", "0.51", "-0.5"} }, true},
+	{"numbers-long", func(r *rand.Rand, g int) []string { // long tokens of small numbers: leading zeros (digits beyond what a float64 keeps would leave the
+		// domain in which the oracle can tell the literal from its float: the reference meaning is over exact decimals)
+		z := strings.Repeat("0", cutLens[g%len(cutLens)])
+		return []string{z + "1", z + "2", z + "1.5", "-" + z + "2"}
+	}, true},
+	{"same-literal-other-operator", func(r *rand.Rand, g int) []string { return []string{dq("v"), dq("v"), dq("v")} }, false},
+	{"same-number-other-operator", func(r *rand.Rand, g int) []string { return []string{"5", "5", "5"} }, true},
+	{"same-literal-other-label", func(r *rand.Rand, g int) []string { return []string{dq("v"), dq("v"), dq("v")} }, false},
+	{"numbers-zero", func(r *rand.Rand, g int) []string { return []string{"0", "-0", "0.0", "0."} }, true},
+}
+
+func confusable(r *rand.Rand, g int, c *Case) string {
+	// even grid points: the four long-literal kinds (the first four of confKinds) x every cut length; odd ones: the other kinds
+	h := g / 2
+	var k confKind
+	var vals []string
+	if g%2 == 0 {
+		k = confKinds[h%4]
+		vals = k.vals(r, h) // length index h % len(cutLens): 4 and 19 are coprime, every (kind, length) pair comes up
+	} else {
+		k = confKinds[4+h%(len(confKinds)-4)]
+		vals = k.vals(r, h)
+	}
+	lab := []string{".url", "span.http.url", "resource.svc_1", "name", ".k"}[(h/3+r.Intn(2))%5]
+	var ops []string
+	if k.num {
+		ops = nops
+		if lab == "name" {
+			lab = ".n"
+		}
+	} else {
+		ops = sops
+	}
+	op := ops[(h+h/4)%len(ops)]
+	n := 2
+	if len(vals) > 2 && r.Intn(3) == 0 {
+		n = 3
+	}
+	// which literals, in which order (the FIRST one wins a collision)
+	perm := r.Perm(len(vals))[:n]
+	ts := make([]string, n)
+	for i, j := range perm {
+		ts[i] = lab + sp(r) + op + sp(r) + vals[j]
+	}
+	switch k.name {
+	case "same-literal-other-operator", "same-number-other-operator": // the key must keep the operator
+		p2 := r.Perm(len(ops))
+		for i := range ts {
+			ts[i] = lab + sp(r) + ops[p2[i%len(p2)]] + sp(r) + vals[0]
+		}
+	case "same-literal-other-label": // ... and the label, byte for byte
+		labs := []string{".k", ".K", ".k-1", ".k_1", ".k.1", "span.k1", ".span"}
+		p2 := r.Perm(len(labs))
+		for i := range ts {
+			ts[i] = labs[p2[i]] + sp(r) + op + sp(r) + vals[0]
+		}
+	}
+	// the connective under which a lost term shows: || for positive operators, && for negative ones; sometimes the other
+	con := " || "
+	if op == "!=" || op == "!~" {
+		con = " && "
+	}
+	if r.Intn(6) == 0 {
+		if con == " || " {
+			con = " && "
+		} else {
+			con = " || "
+		}
+	}
+	q := strings.Join(ts, con)
+	switch r.Intn(6) {
+	case 0:
+		q = "(" + ts[0] + ")" + con + "(" + strings.Join(ts[1:], con) + ")"
+	case 1:
+		q = ts[0] + con + "(.other = \"x\" && " + ts[0] + ")" + con + strings.Join(ts[1:], con) // a genuine repeat beside the confusable pair
+	}
+	q = "{" + q + "}"
+	switch r.Intn(8) {
+	case 0:
+		q += " | count() > 0"
+		c.Class += "+agg"
+	case 1:
+		q = q + " && {.zz != \"zz-none\"}"
+	case 2:
+		q = "{.zz = \"zz-none\"} || " + q
+	}
+	c.Class = "confusable:" + k.name + c.Class
+	return q
+}
+
+// every confEvery-th case is the next point of the confusable grid
+const confEvery = 10
+
 func gen(r *rand.Rand, id int) Case {
 	c := Case{ID: id, Mode: "plan", Calls: 1}
 	weird := r.Intn(8) == 0
 	var q string
 	switch x := r.Intn(21); {
+	case id%confEvery == confEvery-1:
+		weird = false
+		q = confusable(r, id/confEvery, &c)
 	case x == 20:
 		c.Class = "wide"
 		q = wide(r)
@@ -527,6 +681,9 @@ func gen(r *rand.Rand, id int) Case {
 		}
 		c.Calls = 1 + r.Intn(3)
 		c.Class += "+portions"
+	}
+	if strings.HasPrefix(c.Class, "confusable") && r.Intn(3) != 0 {
+		c.Ctx.Limit = int64([]int{0, 20, 100}[r.Intn(3)]) // mostly: every matching trace must come back
 	}
 	switch r.Intn(12) {
 	case 0:
